@@ -3,20 +3,20 @@
 # case: ''; solver: z3
 # verifier output (counter-model):
 #   a_dagger = False
-#   a_p0 = 39269898169872413/10000000000000000
-#   a_p1 = -6558074684368692887/10000000000000000
+#   a_p0 = -3141592653589793/1000000000000000
+#   a_p1 = -7406304693337936997/10000000000000000
 #   b_dagger = False
-#   b_p0 = 39269908169872413/10000000000000000
-#   b_p1 = -6558074674368692887/10000000000000000
-#   modq = 1
-#   modq!1 = -209
-#   modq!2 = 1
-#   modq!3 = -209
-#   modr = 7853971633974483/10000000000000000
-#   modr!1 = 7853961633974483/10000000000000000
-#   modr!2 = 7853981633974483/10000000000000000
-#   modr!3 = 7853971633974483/10000000000000000
-I = {'a_p0': -3.141592653589793, 'a_p1': -674.657023608408, 'a_dagger': False, 'b_p0': -3.141591653589793, 'b_p1': -674.657022608408, 'b_dagger': False}
+#   b_p0 = -3141592403589793/1000000000000000
+#   b_p1 = -7406304683337936997/10000000000000000
+#   modq = -1
+#   modq!1 = -236
+#   modq!2 = -1
+#   modq!3 = -236
+#   modr = 0
+#   modr!1 = 7853969133974483/10000000000000000
+#   modr!2 = 1/4000000
+#   modr!3 = 7853979133974483/10000000000000000
+I = {'a_p0': -3.141592653589793, 'a_p1': -740.6304693337937, 'a_dagger': False, 'b_p0': -3.141592403589793, 'b_p1': -740.6304683337937, 'b_dagger': False}
 OBLIGATION = 'program_equivalence/BSgate/10-vs-01/equiv=>same-order-unless-symmetric'
 
 import sys
